@@ -204,6 +204,7 @@ func (d *DiskQueue) skipToNextRWFile() error {
 	for i := d.readFileNum; i <= d.writeFileNum; i++ {
 		fn := d.fileName(i)
 		innerErr := os.Remove(fn)
+		verifCrashPoint("skip-remove")
 		if innerErr != nil && !os.IsNotExist(innerErr) {
 			log.Printf("ERROR: diskqueue(%s) failed to remove data file - %s", d.name, innerErr.Error())
 			err = innerErr
@@ -330,6 +331,7 @@ func (d *DiskQueue) writeOne(data []byte) error {
 		d.writeFile = nil
 		return err
 	}
+	verifCrashPoint("segment-write")
 
 	totalBytes := int64(4 + dataLen)
 	d.writePos += totalBytes
@@ -340,6 +342,7 @@ func (d *DiskQueue) writeOne(data []byte) error {
 		d.writePos = 0
 
 		// sync every time we start writing to a new file
+		verifCrashPoint("rollover")
 		err = d.sync()
 		if err != nil {
 			log.Printf("ERROR: diskqueue(%s) failed to sync - %s", d.name, err.Error())
@@ -363,9 +366,11 @@ func (d *DiskQueue) sync() error {
 			d.writeFile = nil
 			return err
 		}
+		verifCrashPoint("data-fsync")
 	}
 
 	err := d.persistMetaData()
+	verifCrashPoint("meta-rename")
 	if err != nil {
 		return err
 	}
@@ -414,6 +419,7 @@ func (d *DiskQueue) persistMetaData() error {
 	if err != nil {
 		return err
 	}
+	verifCrashPoint("meta-tmp-create")
 
 	_, err = fmt.Fprintf(f, "%d\n%d,%d\n%d,%d\n",
 		atomic.LoadInt64(&d.depth),
@@ -423,6 +429,7 @@ func (d *DiskQueue) persistMetaData() error {
 		f.Close()
 		return err
 	}
+	verifCrashPoint("meta-tmp-write")
 	f.Sync()
 	f.Close()
 
@@ -486,6 +493,7 @@ func (d *DiskQueue) moveForward() {
 		if err != nil {
 			log.Printf("ERROR: failed to Remove(%s) - %s", fn, err.Error())
 		}
+		verifCrashPoint("segment-remove")
 	}
 
 	d.checkTailCorruption(depth)
@@ -513,6 +521,7 @@ func (d *DiskQueue) handleReadError() {
 	if err != nil {
 		log.Printf("ERROR: diskqueue(%s) failed to rename bad diskqueue file %s to %s", d.name, badFn, badRenameFn)
 	}
+	verifCrashPoint("bad-file-rename")
 
 	d.readFileNum++
 	d.readPos = 0
@@ -565,8 +574,10 @@ func (d *DiskQueue) ioLoop() {
 				}
 			}
 			r = d.readChan
+			verifCrashPoint("idle-ready")
 		} else {
 			r = nil
+			verifCrashPoint("idle-empty")
 		}
 
 		select {
